@@ -172,9 +172,10 @@ def run(tier, seed, replay=None):
     files.append(('quota/period pairs (binary64 model)', p))
     # estimate tables
     # capacities beyond 2^53 cost the model ~1000 search steps per table entry (binary64 start points are off by up
-    # to a few KiB there): the quick tier replays none of them in Coq, the thorough tier all; the Go-side clauses above
+    # to a few KiB there): the quick tier replays none of them in Coq, the thorough tier 33 of them (evenly spaced, the largest included); the Go-side clauses above
     # judge every capacity in both tiers
-    coqcaps = [r for r in capsr if r['cap'] <= 2 ** 53 or tier != 'quick']
+    big = [r for r in capsr if r['cap'] > 2 ** 53]
+    coqcaps = [r for r in capsr if r['cap'] <= 2 ** 53] + (big[::max(1, len(big) // 32)][:32] + big[-1:] if tier != 'quick' else [])
     per = (len(coqcaps) + NSH - 1) // NSH
     for k in range(NSH):
         ch = coqcaps[k * per:(k + 1) * per]
